@@ -1196,6 +1196,10 @@ func (w *c05World) runSeq(s int, nodes []c05Node, nsteps int, next func(int) *c0
 			}
 			// the model's observers - the kernel's path walk (lstat / stat) and the children of a directory - against what Lstat,
 			// Stat and ReadDir reported, on both sides
+			if op.name == "glob" && c05CleanGlob(op.p1) {
+				w.emitFsGlob("fsop", s, i, op, beforeA, a.cat, ga)
+				w.emitFsGlob("fsspec", s, i, op, beforeB, b.cat, gb)
+			}
 			if (op.name == "stat" || op.name == "lstat" || op.name == "readdir" || op.name == "walk") && c05PlainPath.MatchString(op.p1) {
 				w.emitFsObs("fsop", s, i, op, beforeA, a.cat, a.val)
 				w.emitFsObs("fsspec", s, i, op, beforeB, b.cat, b.val)
@@ -1340,6 +1344,86 @@ func (w *c05World) emitFs(kind string, seq, step int, op *c05Op, before, after m
 		c.NT(n)
 	}
 	c.Stat(kind + "_" + op.name)
+}
+
+// c05CleanGlob: a pattern made of the generator's components only, joined by single slashes (no "./", no trailing slash, no
+// broken class): what the Glob model speaks of
+func c05CleanGlob(p string) bool {
+	if p == "" {
+		return false
+	}
+	for _, c := range strings.Split(p, "/") {
+		ok := false
+		for _, g := range c05GlobComps {
+			if c == g {
+				ok = true
+			}
+		}
+		if !ok {
+			return false
+		}
+	}
+	return true
+}
+
+// emitFsGlob: a Glob step for the model. What path.Match says about each component and each name of the tree is computed here
+// with package path and handed over: the model takes Match as given.
+func (w *c05World) emitFsGlob(kind string, seq, step int, op *c05Op, before map[string]c05Ent, cat string, got []string) {
+	c := w.c
+	universe := map[string]bool{"a": true, "b": true, "c": true, "d": true}
+	for k := range before {
+		if strings.HasPrefix(k, "r/") {
+			for _, n := range strings.Split(k[2:], "/") {
+				universe[n] = true
+			}
+		}
+	}
+	var names []string
+	for n := range universe {
+		names = append(names, n)
+	}
+	sort.Strings(names)
+	var comps []string
+	for _, cp := range strings.Split(op.p1, "/") {
+		meta := "0"
+		if strings.ContainsAny(cp, "\\*?[") {
+			meta = "1"
+		}
+		var ms []string
+		for _, n := range names {
+			if ok, err := path.Match(cp, n); err == nil && ok {
+				ms = append(ms, n)
+			}
+		}
+		all := "0"
+		if cp == "*" {
+			all = "1" // (and every name of the universe is listed as well)
+		}
+		l := strings.Join(ms, ",")
+		if l == "" {
+			l = "-"
+		}
+		comps = append(comps, meta+":"+all+":"+l)
+	}
+	n := c.Case(kind, kvs("cfg", w.cfg), kvi("seq", seq), kvi("step", step), kvs("op", "glob"), kvs("path", "-"), kvs("path2", "-"), kvs("target", "text"),
+		kvs("pat", strings.Join(comps, "/")), kvs("tree", c05TreeStr(before)))
+	if cat != "ok" {
+		c.Oracle(n, true, "")
+		return
+	}
+	var ents []string
+	for _, g := range got {
+		ents = append(ents, strings.TrimPrefix(g, "$R/"))
+	}
+	sort.Strings(ents)
+	e := strings.Join(ents, ";")
+	if e == "" {
+		e = "-"
+	}
+	c.Obs(n, "res=ok", "ents="+e)
+	c.Oracle(n, true, "")
+	c.NT(n)
+	c.Stat(kind + "_glob")
 }
 
 // c05KindOf: the kind letter of a fiStr item "name|mode|size|mtime"
